@@ -663,7 +663,7 @@ Qed.
 
 (* all (table, number of pending bits < 8, value of the pending bits) states *)
 Definition finish_ok (t bits : N) : bool :=
-  forallb (fun v => hres_eqb (dec_finish inner_fuel t v bits)
+  forallb (fun v => hres_eqb (dec_finish (N.to_nat bits) t v bits)
                              (embed (ref_walk (tpath t) (bitsN (N.to_nat bits) v))))
           (Nseq 0 (N.to_nat (2 ^ bits))).
 
@@ -700,7 +700,7 @@ Qed.
 
 Lemma dec_finish_correct t acc bits :
   t < 15 -> bits < 8 ->
-  dec_finish inner_fuel t acc bits = embed (ref_walk (tpath t) (bitsN (N.to_nat bits) acc)).
+  dec_finish (N.to_nat bits) t acc bits = embed (ref_walk (tpath t) (bitsN (N.to_nat bits) acc)).
 Proof.
   intros Ht Hb.
   pose proof (forallb_Nseq2 _ _ _ dec_finish_sweep t bits ltac:(lia) ltac:(lia)) as S.
@@ -747,9 +747,9 @@ Proof.
   - apply bytes_ok_cons in Hok as [Hbyte Hok].
     rewrite app_assoc, <- (push_byte acc bits byte) by lia.
     set (acc' := N.lor ((acc * 256) mod 2 ^ 32) byte).
-    pose proof (dec_inner_correct inner_fuel t acc' (bits + 8) (bits_of_bytes src) Ht
-                  ltac:(unfold inner_fuel; lia)) as R.
-    destruct (dec_inner inner_fuel t acc' (bits + 8)) as [t' bits' put| | |].
+    pose proof (dec_inner_correct (N.to_nat (bits + 8)) t acc' (bits + 8) (bits_of_bytes src) Ht
+                  ltac:(lia)) as R.
+    destruct (dec_inner (N.to_nat (bits + 8)) t acc' (bits + 8)) as [t' bits' put| | |].
     + destruct R as [R1 [R2 R3]]. rewrite R3, IH by assumption. apply embed_put.
     + rewrite R. reflexivity.
     + destruct R.
